@@ -1,10 +1,10 @@
 #!/bin/bash
-# tools/seedfinal_par.sh : runs tools/seedfinal.sh for every kept seeded change, in four workers whose
+# tools/seedfinal_par.sh : runs tools/seedfinal.sh for every kept seeded change, in six workers whose
 # properties do not share generated Lean files (so that scratch runs do not race on lean/RlModel/Gen).
 cd /verif
 declare -A W
-W[1]="C01 C17 C02 C11"; W[2]="C12 C13 C03 C07 C05"; W[3]="C06 C18 C08 C09 C10"; W[4]="C04 C15 C14 C16 C19 C20"
-for w in 1 2 3 4; do
+W[1]="C01 C17 C19 C20"; W[2]="C02 C11 C14 C16"; W[3]="C12 C13 C06 C18"; W[4]="C03 C07 C05"; W[5]="C08 C09 C10"; W[6]="C04 C15"
+for w in 1 2 3 4 5 6; do
   slugs=""
   for d in seeded/*/; do
     s=$(basename $d); [ -f $d/meta.json ] || continue
